@@ -16,8 +16,10 @@ func init() {
 			"C06.2 hearsay never reaches the table: nothing reachable from reply consumers (TraversalQueryResult, package traversal, announce and get/put closures, the DoQuery callbacks) can reach updateNode / addNode / AddNode; reply node lists are read only by TraversalQueryResult; " +
 			"C06.3 eviction guard: table.dropNode is called only under nodeIsBad(victim) ∨ (IsGood(newcomer) ∧ victim.lastGotResponse.IsZero()), victim = the iterated entry of the full bucket, newcomer = the node being added; IsGood ⇒ ¬nodeIsBad and has-responded, so a good entry satisfies neither disjunct; " +
 			"C06.4 bad contacts refused: nodeIsBad=false ⇒ (NoSecurity ∨ IsSecure) ∧ ¬failedLastQuestionablePing (own and zero ID: C05.3); " +
-			"C06.5 blocked sources are dropped before processing (shared with C19.2).",
-		NotDecided: "'admitted whenever its bucket has room' (completeness: absence of other refusals cannot be shown without freezing the function bodies), time-dependent goodness windows (15 min).",
+			"C06.5 blocked sources are dropped before processing (shared with C19.2); " +
+			"C06.6 a transaction stays registered only for the duration of its exchange (shared with C07.3); " +
+			"C06.7 'admitted whenever its bucket has room': every non-nil error return of Server.addNode is under nodeIsBad(n)=true, or under the eviction walk reporting the bucket still full, that walk being entered only under ¬(Len < k); every non-nil error return of updateNode is one of {id absent, not present ∧ add=false, own id, addNode's verdict}.",
+		NotDecided: "time-dependent goodness windows (15 min); that the bucket examined for room is the right one (C05.1/C05.3).",
 		Assume:     []string{"the bencode decoder fills krpc.Msg only from the datagram it is given"},
 		Rules: []*Rule{
 			{ID: "C06.1", Doc: "closed set of admission sites with verified sources", Floor: 6, Run: c06r1},
@@ -25,6 +27,7 @@ func init() {
 			{ID: "C06.3", Doc: "eviction guard", Floor: 3, Run: c06r3},
 			{ID: "C06.4", Doc: "bad contacts refused", Floor: 2, Run: c06r4},
 			{ID: "C06.6", Doc: "a transaction is registered only for the duration of its exchange and removed under the key it was registered with, so a late or mismatched response finds nothing (shared with C07.3)", Floor: 4, Run: c07r3},
+			{ID: "C06.7", Doc: "refusals are enumerated: an eligible sender is turned away only because it is bad or its bucket is (still) full", Floor: 4, Run: c06r7},
 			{ID: "C06.5", Doc: "blocked sources dropped first", Floor: 3, Run: c19r2},
 		},
 	})
@@ -323,4 +326,107 @@ func c06r4(w *World, rr *RuleRun) {
 	}
 	rr.Oblige(shortFuncName(a.nodeIsBad), "nodeIsBad(n)=false ⇒ NoSecurity ∨ IsSecure(n)", w.P.Pos(a.nodeIsBad.Pos()), okSec, "false-class "+trunc(sum.String(), 300))
 	rr.Oblige(shortFuncName(a.nodeIsBad), "nodeIsBad(n)=false ⇒ n did not fail its last maintenance ping", w.P.Pos(a.nodeIsBad.Pos()), okPing, "false-class "+trunc(sum.String(), 300))
+}
+
+// c06r7: completeness of admission. The statement promises admission "whenever its bucket has
+// room"; structurally that is: the only ways out of addNode / updateNode with an error are the
+// stated ones. A further refusal (a global cap, a stricter bucket test) has no licence.
+func c06r7(w *World, rr *RuleRun) {
+	a := w.tableAnchors()
+	upd := w.P.Func("(*Server).updateNode")
+	newcomer := w.ParamTerm(a.sAdd, "n")
+	lenLtK := func(x *Term) bool {
+		return x.Op == OpBin && x.Name == "<" && x.Args[0].Op == OpCall && suffixName(x.Args[0]) == "Len" && isFieldTerm(x.Args[1], a.k)
+	}
+	isEach := func(x *Term) bool { return x.Op == OpCall && suffixName(x) == "EachNode" }
+	ff := w.FE.analysisFor(a.sAdd)
+	nErr := 0
+	for _, ex := range ff.exits {
+		if len(ex.ret.Results) != 1 {
+			continue
+		}
+		for _, alt := range ex.st {
+			v := w.FE.Resolve(alt, ex.ret.Results[0])
+			if v.IsConst("nil") {
+				continue
+			}
+			nErr++
+			bad := alt.Has("b", true, func(x *Term) bool {
+				return isCall(x, a.nodeIsBad) && len(x.Args) == 2 && termEq(x.Args[1], newcomer)
+			})
+			full := alt.Has("b", true, isEach)
+			why := "neither nodeIsBad(n) nor a still-full bucket on this path: {" + trunc(strings.Join(alt.Facts(), " ∧ "), 240) + "}"
+			if bad {
+				why = "nodeIsBad(n)"
+			} else if full {
+				why = "the eviction walk reported the bucket still full"
+			}
+			rr.At(w, ex.ret, "Server.addNode refuses only a bad node or a full bucket", bad || full, why)
+		}
+	}
+	if nErr == 0 {
+		rr.Oblige(shortFuncName(a.sAdd), "Server.addNode refuses only a bad node or a full bucket", w.P.Pos(a.sAdd.Pos()), false, "no refusing exit found")
+	}
+	// the eviction walk is entered only when the bucket is full, and reports 'continue' only while it still is
+	nEach := 0
+	eachInstr([]*ssa.Function{a.sAdd}, func(_ *ssa.Function, ins ssa.Instruction) {
+		c := callInstrCommon(ins)
+		if c == nil || c.StaticCallee() == nil || c.StaticCallee().Name() != "EachNode" {
+			return
+		}
+		nEach++
+		w.Require(rr, ins, "the eviction walk starts only when the bucket has no room (¬ Len < k)", func(alt *Alt) (bool, string) {
+			if alt.Has("b", false, lenLtK) {
+				return true, "¬(Len < k)"
+			}
+			return false, "the walk (whose 'still full' verdict refuses the newcomer) may start with room left"
+		})
+		for _, cb := range w.CG.FuncsOf(c.Args[1]) {
+			sum := w.FE.Summary(cb, 0, "true", 0)
+			ok := len(sum) > 0
+			for _, sa := range sum {
+				if !sa.Has("b", false, lenLtK) {
+					ok = false
+				}
+			}
+			rr.At(w, ins, "the walk's callback asks to continue only while the bucket is still full", ok, "true-class "+trunc(sum.String(), 200))
+		}
+	})
+	if nEach == 0 {
+		rr.ObligeTrivial(shortFuncName(a.sAdd), "no eviction walk in Server.addNode", "-", true, "")
+	}
+	// updateNode
+	idP := w.ParamTerm(upd, "id")
+	tryAdd := w.ParamTerm(upd, "tryAdd")
+	fu := w.FE.analysisFor(upd)
+	nU := 0
+	for _, ex := range fu.exits {
+		if len(ex.ret.Results) != 1 {
+			continue
+		}
+		for _, alt := range ex.st {
+			v := w.FE.Resolve(alt, ex.ret.Results[0])
+			if v.IsConst("nil") {
+				continue
+			}
+			nU++
+			reason := ""
+			switch {
+			case isCall(v, a.sAdd):
+				reason = "addNode's verdict"
+			case alt.Has("n", false, func(x *Term) bool { return termEq(x, idP) }):
+				reason = "no sender id"
+			case alt.Has("b", false, func(x *Term) bool { return termEq(x, tryAdd) }):
+				reason = "not present and add flag false"
+			case alt.Has("b", true, func(x *Term) bool {
+				return x.Op == OpBin && x.Name == "==" && (isFieldTerm(x.Args[0], a.serverID) || isFieldTerm(x.Args[1], a.serverID))
+			}):
+				reason = "own id"
+			}
+			rr.At(w, ex.ret, "updateNode refuses only for a stated reason", reason != "", reason+" {"+trunc(strings.Join(alt.Facts(), " ∧ "), 200)+"}")
+		}
+	}
+	if nU == 0 {
+		rr.Oblige(shortFuncName(upd), "updateNode refuses only for a stated reason", w.P.Pos(upd.Pos()), false, "no refusing exit found")
+	}
 }
